@@ -166,6 +166,7 @@ class Family(object):
     rule = ''            # how cases are generated and what makes one non-trivial
     timeout = 10.0       # watchdog per case (seconds); a time-out is reported as a violation
     timeout_sig = 'timeout'
+    max_timeouts = 3
     kind = 'ENUM'
 
     def cases(self, tier):
@@ -190,8 +191,17 @@ class Family(object):
             self.isolate()
         off = seed % W
         it = itertools.islice(self.cases(tier), (w - off) % W, None, W)
+        timeouts = 0
         for case in it:
+            if timeouts >= self.max_timeouts:
+                # a non-terminating tree would otherwise cost `timeout` seconds per remaining case; the violations
+                # already recorded are the verdict (this can only happen in a run that is failing anyway)
+                st.exhaustive = False
+                st.cap_note = 'stopped after %d timeouts' % timeouts
+                break
             res = self.run_case(case)
+            if res.outcome == 'TIMEOUT':
+                timeouts += 1
             st.add(case, res)
             if res.violation is not None and st.violations and st.violations[-1].get('case') == jsonable(case):
                 st.violations[-1]['decoded'] = jsonable(self.describe(case))
